@@ -71,10 +71,13 @@ def cache_key(k):
 def run(tier, seed):
     t0 = time.time()
     n = 3 if tier == "quick" else 4
+    # thorough: one step more over the requests a session goes through (login = plain Set, check = Get, logout = Remove, prolong = Expire, timer); measured: the full alphabet at 4 steps exceeds 50 minutes
+    ALPHABET = ["set", "getset", "get", "exists", "remove", "expire", "tick"] if tier == "quick" else ["set", "get", "remove", "expire", "tick"]
+    FLAGS = tier == "quick"
     ob = {"engine": "smt", "harness": "s16_7_session_deadline", "encodes_files": FILES, "queries": 0, "solver_s": 0.0, "distinct": 0,
           "encodes": ["Handler<CacheManagerRaftReq>::handle", "DirectCacheManager::{set,set_nx,set_xx,set_value,get_set,do_set,get_valid_value,get_value,exists,expire,remove,clear_time_out}"],
-          "bound": "every history of %d steps on two token keys over {Set plain / nx / xx, GetSet, Get, Exists, Remove, Expire, timer tick}; clock per step symbolic and non-decreasing in [0, 2^30), "
-                   "login time <= apply clock, lifetime in [0, 2^30) or never-expires (ttl -1, now 0)" % n}
+          "bound": "every history of %d steps on two token keys over {%s}; clock per step symbolic and non-decreasing in [0, 2^30), "
+                   "login time <= apply clock, lifetime in [0, 2^30) or never-expires (ttl -1, now 0)" % (n, "Set plain / nx / xx, GetSet, Get, Exists, Remove, Expire, timer tick" if tier == "quick" else "Set, Get, Remove, Expire, timer tick")}
     try:
         prog = load_program(FILES)
         it = rseval.Interp(prog)
@@ -142,7 +145,7 @@ def run(tier, seed):
                 return it._invoke(handle, [mgr, req, "ctx"], self_ty="DirectCacheManager")
             for i in range(n):
                 clock[0] = clk[i]
-                op = pick(it, opv[i], ["set", "getset", "get", "exists", "remove", "expire", "tick"])
+                op = pick(it, opv[i], ALPHABET)
                 if op == "tick":
                     it.call_method("DirectCacheManager", "clear_time_out", mgr, [])
                     rec.append({"op": "tick", "clock": clk[i]})
@@ -152,8 +155,8 @@ def run(tier, seed):
                 if op in ("set", "getset"):
                     fv = it.branch(forever[i])
                     label = "session%d" % i
-                    nx = it.branch(nxv[i]) if op == "set" else False
-                    xx = (it.branch(xxv[i]) if not nx else False) if op == "set" else False
+                    nx = it.branch(nxv[i]) if op == "set" and FLAGS else False
+                    xx = (it.branch(xxv[i]) if not nx else False) if op == "set" and FLAGS else False
                     param = Struct("CacheSetParam", {"key": key, "value": Enum("CacheValue", "ApiTokenSession", [label]),
                                                      "ttl": -1 if fv else ttlv[i], "now": 0 if fv else nowv[i], "nx": nx, "xx": xx})
                     rec.append({"op": op, "key": kname, "value": label, "clock": clk[i], "never_expires": fv, "login_time": None if fv else nowv[i], "ttl": None if fv else ttlv[i], "nx": nx, "xx": xx})
